@@ -66,11 +66,31 @@ theorem drvCommit_mono (o : Oracle) (db : DB) : Mono db (drvCommit o db).1 := by
 theorem drvRollback_mono (db : DB) : Mono db (drvRollback db).1 := by
   unfold drvRollback tickR Mono; split <;> simp
 
-theorem gormBegin_mono (o : Oracle) (h : Handle) (db : DB) : Mono db (gormBegin o h db).1 := by
+theorem drvBeginOrphan_mono (o : Oracle) (db : DB) : Mono db (drvBeginOrphan o db).1 := by
+  unfold drvBeginOrphan tick Mono; dsimp only; split <;> simp
+theorem drvBeginVia_mono (o : Oracle) (h : Handle) (db : DB) : Mono db (drvBeginVia o h db).1 := by
+  unfold drvBeginVia; split
+  · exact drvBegin_mono o db
+  · exact drvBeginOrphan_mono o db
+
+theorem gormBegin_mono (g : Bool) (o : Oracle) (h : Handle) (db : DB) : Mono db (gormBegin g o h db).1 := by
   unfold gormBegin; split
-  · exact drvBegin_mono o db
-  · exact drvBegin_mono o db
   · exact Mono.refl db
+  · split
+    · exact drvBeginVia_mono o h db
+    · exact drvBeginVia_mono o h db
+    · exact Mono.refl db
+
+theorem tick_mono (o : Oracle) (k : K) (db : DB) : Mono db (tick o k db).1 := by
+  unfold tick Mono; simp
+theorem gormMiss_mono (o : Oracle) (h : Handle) (db : DB) : Mono db (gormMiss o h db).1 := by
+  rcases gormMiss_tick o h db with h1 | h1 <;> rw [h1]
+  · exact Mono.refl db
+  · exact tick_mono o .Q db
+theorem failH_mono (o : Oracle) (src : FailSrc) (h : Handle) (db : DB) : Mono db (failH o src h db).1 := by
+  cases src
+  · exact Mono.refl db
+  · exact gormMiss_mono o h db
 theorem gormCommit_mono (o : Oracle) (h : Handle) (db : DB) : Mono db (gormCommit o h db).1 := by
   unfold gormCommit; split
   · exact drvCommit_mono o db
@@ -100,8 +120,8 @@ theorem gormWrite_mono (c : Cfg) (o : Oracle) (h : Handle) (w : Write) (db : DB)
     · exact drvExecTx_mono o _ db
     · split
       · exact drvExecPool_mono o _ db
-      · have hb := gormBegin_mono o h db
-        generalize gormBegin o h db = b at hb
+      · have hb := gormBegin_mono c.beginGuard o h db
+        generalize gormBegin c.beginGuard o h db = b at hb
         obtain ⟨db1, tx⟩ := b
         dsimp only at hb ⊢
         split
@@ -201,7 +221,7 @@ theorem runChild_mono (c : Cfg) (o : Oracle) : ∀ (p : Prog) (h : Handle) (db :
         · exact h0.trans hs
         · exact (h0.trans hs).trans ((runBody_mono c o body _ _).trans (finishNested_mono o _ _ out tag _))
       · exact h0.trans ((runBody_mono c o body _ _).trans (finishDis_mono h out tag _))
-    · have hb := gormBegin_mono o h (markStale h db)
+    · have hb := gormBegin_mono c.beginGuard o h (markStale h db)
       split
       · exact h0.trans hb
       · exact (h0.trans hb).trans ((runBody_mono c o body _ _).trans (finishRoot_mono o h out tag _))
@@ -209,7 +229,7 @@ theorem runChild_mono (c : Cfg) (o : Oracle) : ∀ (p : Prog) (h : Handle) (db :
     unfold runChild
     dsimp only
     have h0 := markStale_mono h db
-    have hb := gormBegin_mono o h (markStale h db)
+    have hb := gormBegin_mono c.beginGuard o h (markStale h db)
     split
     · exact h0.trans hb
     · exact (h0.trans hb).trans ((runBody_mono c o body _ _).trans (finishMan_mono o h fin _))
@@ -219,6 +239,12 @@ theorem runChild_mono (c : Cfg) (o : Oracle) : ∀ (p : Prog) (h : Handle) (db :
     generalize runBody c o (derive k h) body (markStale h db) = r at ih
     obtain ⟨db1, h1, r1⟩ := r
     exact (markStale_mono h db).trans ih
+  | .fh src body m, h, db => by
+    have ih := runBody_mono c o body (failH o src h (markStale h db)).2 (failH o src h (markStale h db)).1
+    unfold runChild
+    generalize runBody c o (failH o src h (markStale h db)).2 body (failH o src h (markStale h db)).1 = r at ih
+    obtain ⟨db1, h1, r1⟩ := r
+    exact ((markStale_mono h db).trans (failH_mono o src h _)).trans ih
 theorem runBody_mono (c : Cfg) (o : Oracle) : ∀ (ps : List Prog) (h : Handle) (db : DB), Mono db (runBody c o h ps db).1
   | [], h, db => by unfold runBody; exact Mono.refl db
   | p :: ps, h, db => by
@@ -399,6 +425,9 @@ theorem gormQuery_step (o : Oracle) (h : Handle) (db : DB) (hp : h.pool.isCommit
   · exact TxStep.refl db
   · exact TxStep.of_tx_eq (drvQueryTx_tx o _ db)
 
+theorem failH_step (o : Oracle) (src : FailSrc) (h : Handle) (db : DB) : TxStep db (failH o src h db).1 :=
+  TxStep.of_tx_eq (by simp)
+
 theorem fnEnd_calls (h : Handle) (r : Res) (out : Out) (tag : Nat) (db : DB) : (fnEnd h r out tag db).1.calls = db.calls := by
   unfold fnEnd; split
   · dsimp only; split <;> simp
@@ -471,7 +500,7 @@ theorem runChild_step (c : Cfg) (o : Oracle) : ∀ (p : Prog) (h : Handle) (db :
   | .man body fin m, h, db, hp, _ => by
     unfold runChild
     dsimp only
-    have hb := gormBegin_committer o h (markStale h db) hp
+    have hb := gormBegin_committer c.beginGuard o h (markStale h db) hp
     rw [if_pos hb.2, hb.1]
     exact markStale_step h db
   | .dv k body m, h, db, hp, hne => by
@@ -481,6 +510,15 @@ theorem runChild_step (c : Cfg) (o : Oracle) : ∀ (p : Prog) (h : Handle) (db :
     generalize runBody c o (derive k h) body (markStale h db) = r at ih
     obtain ⟨db1, h1, r1⟩ := r
     exact (markStale_step h db).trans (markStale_mono h db).1 ih
+  | .fh src body m, h, db, hp, hne => by
+    have hnb : noEndBody body = true := by rw [noEndChild_fh] at hne; exact hne
+    have ih := runBody_step c o body (failH o src h (markStale h db)).2 (failH o src h (markStale h db)).1
+      (by rw [failH_pool]; exact hp) hnb
+    unfold runChild
+    generalize runBody c o (failH o src h (markStale h db)).2 body (failH o src h (markStale h db)).1 = r at ih
+    obtain ⟨db1, h1, r1⟩ := r
+    exact ((markStale_step h db).trans (markStale_mono h db).1 (failH_step o src h _)).trans
+      ((markStale_mono h db).trans (failH_mono o src h _)).1 ih
 theorem runBody_step (c : Cfg) (o : Oracle) : ∀ (ps : List Prog) (h : Handle) (db : DB),
     h.pool.isCommitter = true → noEndBody ps = true → TxStep db (runBody c o h ps db).1
   | [], h, db, _, _ => by unfold runBody; exact TxStep.refl db
@@ -679,6 +717,7 @@ def noRb : Prog → Bool
   | .blk body _ _ _ => noRbs body
   | .man body _ _ => noRbs body
   | .dv _ body _ => noRbs body
+  | .fh _ body _ => noRbs body
   | .write _ _ => true
   | .read _ => true
   | .sp _ _ => true
@@ -856,8 +895,9 @@ theorem gormQuery_tx (o : Oracle) (h : Handle) (db : DB) (t : TxSt)
   simp only [he, ne_eq, not_true_eq_false, if_false, hp, if_true, ht]
   cases ho : o db.calls <;> simp [resOf, ht]
 
-theorem gormBegin_committer_err (o : Oracle) (h : Handle) (db : DB) (hp : h.pool.isCommitter = true) (he : h.err = []) :
-    (gormBegin o h db).2.err = [.invalidTx] := by
+theorem gormBegin_committer_err (g : Bool) (o : Oracle) (h : Handle) (db : DB) (hp : h.pool.isCommitter = true) (he : h.err = []) :
+    (gormBegin g o h db).2.err = [.invalidTx] := by
+  rw [gormBegin_clean g o h db he]
   unfold gormBegin; cases hpool : h.pool <;> simp_all [Pool.isCommitter, addError, beginH]
 
 /-- the simulation inside a transaction -/
@@ -880,20 +920,33 @@ theorem findSp_fresh (n : Nat) (v : Store) (new S : List (SpName × Store)) (hf 
   rw [findSp_append new _ (fun s hs => by have := hf n s hs; omega)]
   simp
 
+theorem noFailBody_cons (p : Prog) (ps : List Prog) : noFailBody (p :: ps) = (noFailChild p && noFailBody ps) := by
+  rw [noFailBody]
+theorem noFailChild_blk (body : List Prog) (out : Out) (tag : Nat) (m : Bool) :
+    noFailChild (.blk body out tag m) = noFailBody body := by rw [noFailChild]
+theorem noFailChild_man (body : List Prog) (fin : Fin) (m : Bool) :
+    noFailChild (.man body fin m) = noFailBody body := by rw [noFailChild]
+theorem noFailChild_dv (k : Derive) (body : List Prog) (m : Bool) :
+    noFailChild (.dv k body m) = noFailBody body := by rw [noFailChild]
+theorem noFailChild_fh (src : FailSrc) (body : List Prog) (m : Bool) :
+    noFailChild (.fh src body m) = false := by rw [noFailChild]
+
 mutual
 theorem runChild_simTx (c : Cfg) (o : Oracle) : ∀ (p : Prog) (h : Handle) (db : DB) (t : TxSt),
     h.pool.isCommitter = true → h.err = [] → db.tx = some t → noRb p = true → noEndChild p = true →
+    noFailChild p = true →
     (runChild c o h p db).1.stale = false → (runChild c o h p db).1.rbFault = false →
     SimTx h db t (runChild c o h p db) (specChild o (envOf c h) p t.cur db.calls)
-  | .endtx m, h, db, t, _, _, _, _, hne, _, _ => by simp [noEndChild] at hne
-  | .write w m, h, db, t, hp, he, ht, _, _, _, _ => by
+  | .endtx m, h, db, t, _, _, _, _, hne, _, _, _ => by simp [noEndChild] at hne
+  | .fh src body m, h, db, t, _, _, _, _, _, hnf, _, _ => by simp [noFailChild] at hnf
+  | .write w m, h, db, t, hp, he, ht, _, _, _, _, _ => by
     have hw := gormWrite_tx c o h w db t hp he ht
     unfold runChild specChild
     rw [markStale_clean h db he]
     rw [envOf_effCond]
     simp only [envOf, hp, Bool.true_or, if_true]
     exact ⟨hw.2.2.1, hw.2.1, hw.2.2.2, ⟨[], hw.1, Fresh.nil _⟩, Or.inl rfl⟩
-  | .read m, h, db, t, hp, he, ht, _, _, _, _ => by
+  | .read m, h, db, t, hp, he, ht, _, _, _, _, _ => by
     have hq := gormQuery_tx o h db t hp he ht
     unfold runChild specChild
     rw [markStale_clean h db he]
@@ -901,7 +954,7 @@ theorem runChild_simTx (c : Cfg) (o : Oracle) : ∀ (p : Prog) (h : Handle) (db 
     · rw [hq.2.1]; split <;> rfl
     · dsimp only; rw [hq.2.2.2]; split <;> rfl
     · dsimp only; rw [hq.1]; split <;> rfl
-  | .sp n m, h, db, t, hp, he, ht, _, _, _, _ => by
+  | .sp n m, h, db, t, hp, he, ht, _, _, _, _, _ => by
     obtain ⟨hc, hcm, hT, hF⟩ := gormSavePoint_clean o h (.manual n) db t he ht
     unfold runChild specChild
     rw [markStale_clean h db he]
@@ -916,30 +969,32 @@ theorem runChild_simTx (c : Cfg) (o : Oracle) : ∀ (p : Prog) (h : Handle) (db 
       refine ⟨hcm, hc, ?_, ⟨[], htx, Fresh.nil _⟩, Or.inr ⟨by rw [hh]; exact hne, rfl⟩⟩
       rw [hh, ← spErr_spec c h db.calls he]
       simp [resOf, hne]
-  | .rb n m, h, db, t, _, _, _, hn, _, _, _ => by simp [noRb] at hn
-  | .man body fin m, h, db, t, hp, he, ht, _, _, _, _ => by
-    have hb := gormBegin_committer o h (markStale h db) hp
-    have hbe := gormBegin_committer_err o h (markStale h db) hp he
+  | .rb n m, h, db, t, _, _, _, hn, _, _, _, _ => by simp [noRb] at hn
+  | .man body fin m, h, db, t, hp, he, ht, _, _, _, _, _ => by
+    have hb := gormBegin_committer c.beginGuard o h (markStale h db) hp
+    have hbe := gormBegin_committer_err c.beginGuard o h (markStale h db) hp he
     unfold runChild specChild
     dsimp only
     rw [if_pos hb.2, hb.1, hbe, markStale_clean h db he]
     simp only [envOf, hp, if_true]
     exact ⟨rfl, rfl, rfl, ⟨[], by rw [ht]; rfl, Fresh.nil _⟩, Or.inl rfl⟩
-  | .dv k body m, h, db, t, hp, he, ht, hn, hne, hs, hf => by
+  | .dv k body m, h, db, t, hp, he, ht, hn, hne, hnf, hs, hf => by
     have hnb : noRbs body = true := by simpa [noRb] using hn
     have hneb : noEndBody body = true := by rw [noEndChild_dv] at hne; exact hne
+    have hnfb : noFailBody body = true := by rw [noFailChild_dv] at hnf; exact hnf
     have hrun : runChild c o h (.dv k body m) db =
         ((runBody c o (derive k h) body db).1, h, (runBody c o (derive k h) body db).2.2) := by
       rw [runChild, markStale_clean h db he]
     rw [hrun] at hs hf ⊢
     have ih := runBody_simTx c o body (derive k h) db t (by rw [derive_isCommitter]; exact hp)
-      (by rw [derive_err]; exact he) ht hnb hneb hs hf
+      (by rw [derive_err]; exact he) ht hnb hneb hnfb hs hf
     rw [envOf_derive] at ih
     unfold specChild
     exact ⟨ih.1, ih.2.1, ih.2.2.1, ih.2.2.2.1, Or.inl rfl⟩
-  | .blk body out tag m, h, db, t, hp, he, ht, hn, hne, hs, hf => by
+  | .blk body out tag m, h, db, t, hp, he, ht, hn, hne, hnf, hs, hf => by
     have hnb : noRbs body = true := by simpa [noRb] using hn
     have hneb : noEndBody body = true := by rw [noEndChild_blk] at hne; exact hne
+    have hnfb : noFailBody body = true := by rw [noFailChild_blk] at hnf; exact hnf
     cases hd : (c.dis || h.dis)
     · -- nested: SAVEPOINT / ROLLBACK TO
       rw [runChild_blk_nested c o h body out tag m db hp hd, markStale_clean h db he] at hs hf ⊢
@@ -962,7 +1017,7 @@ theorem runChild_simTx (c : Cfg) (o : Oracle) : ∀ (p : Prog) (h : Handle) (db 
           · rfl
           · rw [mfin.2.2 hx] at hf; exact absurd hf (by simp)
         have ih := runBody_simTx c o body (nestH h) (gormSavePoint o h (.auto db.calls) db).1 _ (by simpa using hp)
-          (by simpa using he) htx1 hnb hneb hsb hfb
+          (by simpa using he) htx1 hnb hneb hnfb hsb hfb
         rw [envOf_nest] at ih
         rw [hc1] at ih
         dsimp only at ih
@@ -1008,7 +1063,7 @@ theorem runChild_simTx (c : Cfg) (o : Oracle) : ∀ (p : Prog) (h : Handle) (db 
         cases hx : (runBody c o (nestH h) body db).1.rbFault
         · rfl
         · rw [mfin.2.2 hx] at hf; exact absurd hf (by simp)
-      have ih := runBody_simTx c o body (nestH h) db t (by simpa using hp) (by simpa using he) ht hnb hneb hsb hfb
+      have ih := runBody_simTx c o body (nestH h) db t (by simpa using hp) (by simpa using he) ht hnb hneb hnfb hsb hfb
       rw [envOf_nest] at ih
       generalize specBody o (envOf c h).nest body t.cur db.calls = y at ih ⊢
       generalize runBody c o (nestH h) body db = b at ih ⊢
@@ -1023,14 +1078,16 @@ theorem runChild_simTx (c : Cfg) (o : Oracle) : ∀ (p : Prog) (h : Handle) (db 
         ⟨new, by rw [fnEnd_tx, itx], ifresh⟩, Or.inl rfl⟩
 theorem runBody_simTx (c : Cfg) (o : Oracle) : ∀ (ps : List Prog) (h : Handle) (db : DB) (t : TxSt),
     h.pool.isCommitter = true → h.err = [] → db.tx = some t → noRbs ps = true → noEndBody ps = true →
+    noFailBody ps = true →
     (runBody c o h ps db).1.stale = false → (runBody c o h ps db).1.rbFault = false →
     SimTx h db t (runBody c o h ps db) (specBody o (envOf c h) ps t.cur db.calls)
-  | [], h, db, t, _, _, ht, _, _, _, _ => by
+  | [], h, db, t, _, _, ht, _, _, _, _, _ => by
     unfold runBody specBody
     exact ⟨rfl, rfl, rfl, ⟨[], by rw [ht]; rfl, Fresh.nil _⟩, Or.inl rfl⟩
-  | p :: ps, h, db, t, hp, he, ht, hn, hne, hs, hf => by
+  | p :: ps, h, db, t, hp, he, ht, hn, hne, hnf, hs, hf => by
     have hnn : noRb p = true ∧ noRbs ps = true := by simpa [noRbs] using hn
     have hee : noEndChild p = true ∧ noEndBody ps = true := by simpa [noEndBody_cons] using hne
+    have hff : noFailChild p = true ∧ noFailBody ps = true := by simpa [noFailBody_cons] using hnf
     have m2 := runBody_mono c o ps (runChild c o h p db).2.1 (runChild c o h p db).1
     rw [runBody_cons] at hs hf ⊢
     rw [specBody_cons]
@@ -1046,7 +1103,7 @@ theorem runBody_simTx (c : Cfg) (o : Oracle) : ∀ (ps : List Prog) (h : Handle)
       · split at hf
         · rw [hx] at hf; exact absurd hf (by simp)
         · rw [m2.2.2 hx] at hf; exact absurd hf (by simp)
-    have ih1 := runChild_simTx c o p h db t hp he ht hnn.1 hee.1 hs1 hf1
+    have ih1 := runChild_simTx c o p h db t hp he ht hnn.1 hee.1 hff.1 hs1 hf1
     have m1 := (runChild_mono c o p h db).1
     generalize specChild o (envOf c h) p t.cur db.calls = y at ih1 ⊢
     generalize runChild c o h p db = x at ih1 hs hf m1 ⊢
@@ -1061,7 +1118,7 @@ theorem runBody_simTx (c : Cfg) (o : Oracle) : ∀ (ps : List Prog) (h : Handle)
     · rw [if_neg hstop] at hs hf ⊢
       rw [if_neg hstop]
       rcases ihand with rfl | ⟨hpe, hpp⟩
-      · have ih2 := runBody_simTx c o ps h1 db1 _ hp he itx hnn.2 hee.2 hs hf
+      · have ih2 := runBody_simTx c o ps h1 db1 _ hp he itx hnn.2 hee.2 hff.2 hs hf
         rw [icalls] at ih2
         obtain ⟨jcm, jcalls, jres, ⟨new2, jtx, jfresh⟩, jhand⟩ := ih2
         refine ⟨jcm.trans icm, jcalls, jres, ⟨new2 ++ new, by rw [jtx]; simp, ?_⟩, jhand⟩
@@ -1077,13 +1134,14 @@ end
 theorem pool_top (h : Handle) (hp : h.pool.isCommitter = false) : h.pool = .sqlDB ∨ h.pool = .prepDB := by
   cases hpool : h.pool <;> simp_all [Pool.isCommitter]
 
-theorem gormBegin_top (c : Cfg) (o : Oracle) (h : Handle) (db : DB) (hp : h.pool.isCommitter = false) (he : h.err = []) :
-    (gormBegin o h db).1.calls = db.calls + 1 ∧ (gormBegin o h db).1.committed = db.committed ∧
-    (o db.calls = true → (gormBegin o h db).1.tx = db.tx ∧ (gormBegin o h db).2.err = [.inj db.calls]) ∧
-    (o db.calls = false → (gormBegin o h db).1.tx = some { cur := db.committed, saves := [] } ∧
-       (gormBegin o h db).2.err = [] ∧ (gormBegin o h db).2.pool.isCommitter = true ∧
-       envOf c (gormBegin o h db).2 = (envOf c h).begin) := by
-  unfold gormBegin drvBegin tick
+theorem gormBegin_top (c : Cfg) (g : Bool) (o : Oracle) (h : Handle) (db : DB) (hp : h.pool.isCommitter = false) (he : h.err = []) :
+    (gormBegin g o h db).1.calls = db.calls + 1 ∧ (gormBegin g o h db).1.committed = db.committed ∧
+    (o db.calls = true → (gormBegin g o h db).1.tx = db.tx ∧ (gormBegin g o h db).2.err = [.inj db.calls]) ∧
+    (o db.calls = false → (gormBegin g o h db).1.tx = some { cur := db.committed, saves := [] } ∧
+       (gormBegin g o h db).2.err = [] ∧ (gormBegin g o h db).2.pool.isCommitter = true ∧
+       envOf c (gormBegin g o h db).2 = (envOf c h).begin) := by
+  rw [gormBegin_clean g o h db he]
+  unfold gormBegin drvBeginVia drvBegin tick
   rcases pool_top h hp with hq | hq <;> simp only [hq] <;> cases ho : o db.calls <;>
     simp [addError, he, Pool.isCommitter, beginH] <;> simp [envOf, Env.begin, Pool.isCommitter]
 
@@ -1311,12 +1369,12 @@ theorem specChild_write_direct (o : Oracle) (e : Env) (w : Write) (m : Bool) (v 
 theorem gormWrite_top_eq (c : Cfg) (o : Oracle) (h : Handle) (w : Write) (db : DB)
     (hp : h.pool.isCommitter = false) (he : h.err = []) (hsk : (c.skip || h.skip) = false) :
     gormWrite c o h w db =
-      if (gormBegin o h db).2.err ≠ [] then ((gormBegin o h db).1, (gormBegin o h db).2.err)
-      else if (drvExecTx o (effWrite h.effCond w) (gormBegin o h db).1).2 ≠ [] then
-        ((gormRollback (gormBegin o h db).2 (drvExecTx o (effWrite h.effCond w) (gormBegin o h db).1).1).1,
-         (drvExecTx o (effWrite h.effCond w) (gormBegin o h db).1).2)
-      else ((gormCommit o (gormBegin o h db).2 (drvExecTx o (effWrite h.effCond w) (gormBegin o h db).1).1).1,
-            (gormCommit o (gormBegin o h db).2 (drvExecTx o (effWrite h.effCond w) (gormBegin o h db).1).1).2.err) := by
+      if (gormBegin c.beginGuard o h db).2.err ≠ [] then ((gormBegin c.beginGuard o h db).1, (gormBegin c.beginGuard o h db).2.err)
+      else if (drvExecTx o (effWrite h.effCond w) (gormBegin c.beginGuard o h db).1).2 ≠ [] then
+        ((gormRollback (gormBegin c.beginGuard o h db).2 (drvExecTx o (effWrite h.effCond w) (gormBegin c.beginGuard o h db).1).1).1,
+         (drvExecTx o (effWrite h.effCond w) (gormBegin c.beginGuard o h db).1).2)
+      else ((gormCommit o (gormBegin c.beginGuard o h db).2 (drvExecTx o (effWrite h.effCond w) (gormBegin c.beginGuard o h db).1).1).1,
+            (gormCommit o (gormBegin c.beginGuard o h db).2 (drvExecTx o (effWrite h.effCond w) (gormBegin c.beginGuard o h db).1).1).2.err) := by
   unfold gormWrite
   simp only [he, hp, hsk, ne_eq, not_true_eq_false, if_false, Bool.false_eq_true]
 
@@ -1329,19 +1387,19 @@ theorem gormWrite_top (c : Cfg) (o : Oracle) (h : Handle) (w : Write) (m : Bool)
   cases hsk : (c.skip || h.skip)
   · rw [specChild_write_top o (envOf c h) w m db.committed db.calls hp hsk, envOf_effCond,
       gormWrite_top_eq c o h w db hp he hsk]
-    obtain ⟨bc, bcm, bT, bF⟩ := gormBegin_top c o h db hp he
+    obtain ⟨bc, bcm, bT, bF⟩ := gormBegin_top c c.beginGuard o h db hp he
     cases ho : o db.calls
     · obtain ⟨btx, berr, bpool, _⟩ := bF ho
-      obtain ⟨xtx, xc, xcm, xres⟩ := drvExecTx_spec o (effWrite h.effCond w) (gormBegin o h db).1 _ btx
+      obtain ⟨xtx, xc, xcm, xres⟩ := drvExecTx_spec o (effWrite h.effCond w) (gormBegin c.beginGuard o h db).1 _ btx
       rw [bc] at xres xtx xc
       dsimp only at xres xtx
       rw [if_neg (by rw [berr]; simp)]
       simp only [Bool.false_eq_true, if_false]
-      by_cases hee : (drvExecTx o (effWrite h.effCond w) (gormBegin o h db).1).2 = []
+      by_cases hee : (drvExecTx o (effWrite h.effCond w) (gormBegin c.beginGuard o h db).1).2 = []
       · have hok : (specWrite o (effWrite h.effCond w) db.committed (db.calls + 1)).2.2 = .ok := by
           rw [← xres]; exact (resOf_ok_iff _).2 hee
         rw [if_neg (by simp [hee]), if_pos hok]
-        obtain ⟨cc, ctx, cT, cF⟩ := gormCommit_clean o (gormBegin o h db).2 _ _ bpool berr xtx
+        obtain ⟨cc, ctx, cT, cF⟩ := gormCommit_clean o (gormBegin c.beginGuard o h db).2 _ _ bpool berr xtx
         rw [xc] at cc cT cF
         cases ho2 : o (db.calls + 2)
         · obtain ⟨ccm, cerr⟩ := cF ho2
@@ -1353,7 +1411,7 @@ theorem gormWrite_top (c : Cfg) (o : Oracle) (h : Handle) (w : Write) (m : Bool)
       · have hnok : ¬ (specWrite o (effWrite h.effCond w) db.committed (db.calls + 1)).2.2 = .ok := by
           rw [← xres]; exact fun hc => hee ((resOf_ok_iff _).1 hc)
         rw [if_pos hee, if_neg hnok]
-        obtain ⟨rc, rtx, rcm, _⟩ := gormRollback_open (gormBegin o h db).2 _ _ bpool xtx
+        obtain ⟨rc, rtx, rcm, _⟩ := gormRollback_open (gormBegin c.beginGuard o h db).2 _ _ bpool xtx
         exact ⟨rtx, by rw [rcm, xcm, bcm], by rw [rc, xc], xres⟩
     · obtain ⟨btx, berr⟩ := bT ho
       rw [if_pos (by rw [berr]; simp)]
@@ -1379,17 +1437,17 @@ theorem gormQuery_top (o : Oracle) (h : Handle) (db : DB) (hp : h.pool.isCommitt
 theorem runChild_blk_top (c : Cfg) (o : Oracle) (h : Handle) (body : List Prog) (out : Out) (tag : Nat) (must : Bool) (db : DB)
     (hp : h.pool.isCommitter = false) :
     runChild c o h (.blk body out tag must) db =
-      if (gormBegin o h (markStale h db)).2.err ≠ [] then
-        ((gormBegin o h (markStale h db)).1, h, .err (gormBegin o h (markStale h db)).2.err)
-      else finishRoot o h out tag (runBody c o (gormBegin o h (markStale h db)).2 body (gormBegin o h (markStale h db)).1) := by
+      if (gormBegin c.beginGuard o h (markStale h db)).2.err ≠ [] then
+        ((gormBegin c.beginGuard o h (markStale h db)).1, h, .err (gormBegin c.beginGuard o h (markStale h db)).2.err)
+      else finishRoot o h out tag (runBody c o (gormBegin c.beginGuard o h (markStale h db)).2 body (gormBegin c.beginGuard o h (markStale h db)).1) := by
   unfold runChild
   simp only [hp, Bool.false_eq_true, if_false]
 
 theorem runChild_man_eq (c : Cfg) (o : Oracle) (h : Handle) (body : List Prog) (fin : Fin) (must : Bool) (db : DB) :
     runChild c o h (.man body fin must) db =
-      if (gormBegin o h (markStale h db)).2.err ≠ [] then
-        ((gormBegin o h (markStale h db)).1, h, .err (gormBegin o h (markStale h db)).2.err)
-      else finishMan o h fin (runBody c o (gormBegin o h (markStale h db)).2 body (gormBegin o h (markStale h db)).1) := by
+      if (gormBegin c.beginGuard o h (markStale h db)).2.err ≠ [] then
+        ((gormBegin c.beginGuard o h (markStale h db)).1, h, .err (gormBegin c.beginGuard o h (markStale h db)).2.err)
+      else finishMan o h fin (runBody c o (gormBegin c.beginGuard o h (markStale h db)).2 body (gormBegin c.beginGuard o h (markStale h db)).1) := by
   rw [runChild]
 
 /-- the simulation at the top level -/
@@ -1399,15 +1457,16 @@ def SimTop (h : Handle) (x : DB × Handle × Res) (s : Store × Nat × Res) : Pr
 mutual
 theorem runChild_simTop (c : Cfg) (o : Oracle) : ∀ (p : Prog) (h : Handle) (db : DB),
     h.pool.isCommitter = false → h.err = [] → db.tx = none → wfChild false p = true → noRb p = true →
-    noEndChild p = true →
+    noEndChild p = true → noFailChild p = true →
     (runChild c o h p db).1.stale = false → (runChild c o h p db).1.rbFault = false →
     SimTop h (runChild c o h p db) (specChild o (envOf c h) p db.committed db.calls)
-  | .endtx m, h, db, _, _, _, _, _, hne, _, _ => by simp [noEndChild] at hne
-  | .write w m, h, db, hp, he, hd, _, _, _, _, _ => by
+  | .endtx m, h, db, _, _, _, _, _, hne, _, _, _ => by simp [noEndChild] at hne
+  | .fh src body m, h, db, _, _, _, _, _, _, hnf, _, _ => by simp [noFailChild] at hnf
+  | .write w m, h, db, hp, he, hd, _, _, _, _, _, _ => by
     have hw := gormWrite_top c o h w m db hp he hd
     rw [runChild, markStale_clean h db he]
     exact ⟨hw.1, hw.2.1, hw.2.2.1, hw.2.2.2, rfl⟩
-  | .read m, h, db, hp, he, hd, _, _, _, _, _ => by
+  | .read m, h, db, hp, he, hd, _, _, _, _, _, _ => by
     have hq := gormQuery_top o h db hp he
     rw [runChild, markStale_clean h db he]
     unfold specChild
@@ -1415,42 +1474,44 @@ theorem runChild_simTop (c : Cfg) (o : Oracle) : ∀ (p : Prog) (h : Handle) (db
     · rw [hq.2.2.1]; split <;> rfl
     · rw [hq.2.1]; split <;> rfl
     · dsimp only; rw [hq.2.2.2]; split <;> rfl
-  | .sp n m, h, db, _, _, _, hwf, _, _, _, _ => by simp [wfChild] at hwf
-  | .rb n m, h, db, _, _, _, hwf, _, _, _, _ => by simp [wfChild] at hwf
-  | .dv k body m, h, db, hp, he, hd, hwf, hn, hne, hs, hf => by
+  | .sp n m, h, db, _, _, _, hwf, _, _, _, _, _ => by simp [wfChild] at hwf
+  | .rb n m, h, db, _, _, _, hwf, _, _, _, _, _ => by simp [wfChild] at hwf
+  | .dv k body m, h, db, hp, he, hd, hwf, hn, hne, hnf, hs, hf => by
     have hnb : noRbs body = true := by simpa [noRb] using hn
     have hneb : noEndBody body = true := by rw [noEndChild_dv] at hne; exact hne
+    have hnfb : noFailBody body = true := by rw [noFailChild_dv] at hnf; exact hnf
     have hwb : wfBody false body = true := by simpa [wfChild] using hwf
     have hrun : runChild c o h (.dv k body m) db =
         ((runBody c o (derive k h) body db).1, h, (runBody c o (derive k h) body db).2.2) := by
       rw [runChild, markStale_clean h db he]
     rw [hrun] at hs hf ⊢
     have ih := runBody_simTop c o body (derive k h) db (by rw [derive_isCommitter]; exact hp)
-      (by rw [derive_err]; exact he) hd hwb hnb hneb hs hf
+      (by rw [derive_err]; exact he) hd hwb hnb hneb hnfb hs hf
     rw [envOf_derive] at ih
     unfold specChild
     exact ⟨ih.1, ih.2.1, ih.2.2.1, ih.2.2.2.1, rfl⟩
-  | .blk body out tag m, h, db, hp, he, hd, _, hn, hne, hs, hf => by
+  | .blk body out tag m, h, db, hp, he, hd, _, hn, hne, hnf, hs, hf => by
     have hnb : noRbs body = true := by simpa [noRb] using hn
     have hneb : noEndBody body = true := by rw [noEndChild_blk] at hne; exact hne
+    have hnfb : noFailBody body = true := by rw [noFailChild_blk] at hnf; exact hnf
     rw [runChild_blk_top c o h body out tag m db hp, markStale_clean h db he] at hs hf ⊢
     rw [specChild_blk_root o (envOf c h) body out tag m db.committed db.calls hp]
-    obtain ⟨bc, bcm, bT, bF⟩ := gormBegin_top c o h db hp he
+    obtain ⟨bc, bcm, bT, bF⟩ := gormBegin_top c c.beginGuard o h db hp he
     cases ho : o db.calls
     · obtain ⟨btx, berr, bpool, benv⟩ := bF ho
-      have hne : ¬ ((gormBegin o h db).2.err ≠ []) := by rw [berr]; simp
+      have hne : ¬ ((gormBegin c.beginGuard o h db).2.err ≠ []) := by rw [berr]; simp
       rw [if_neg hne] at hs hf ⊢
       simp only [Bool.false_eq_true, if_false]
-      have mfin := finishRoot_mono o h out tag (runBody c o (gormBegin o h db).2 body (gormBegin o h db).1)
-      have ih := runBody_simTx c o body (gormBegin o h db).2 (gormBegin o h db).1 _ bpool berr btx hnb hneb
+      have mfin := finishRoot_mono o h out tag (runBody c o (gormBegin c.beginGuard o h db).2 body (gormBegin c.beginGuard o h db).1)
+      have ih := runBody_simTx c o body (gormBegin c.beginGuard o h db).2 (gormBegin c.beginGuard o h db).1 _ bpool berr btx hnb hneb hnfb
         (stale_false_of_mono mfin hs) (rbFault_false_of_mono mfin hf)
-      have hpool := (runBody_frame c o body (gormBegin o h db).2 (gormBegin o h db).1
+      have hpool := (runBody_frame c o body (gormBegin c.beginGuard o h db).2 (gormBegin c.beginGuard o h db).1
         (by rw [bpool]; exact wfBody_true body)).1
       rw [benv, bc] at ih
       dsimp only at ih
       rw [specFnOut_eq]
       generalize specBody o (envOf c h).begin body db.committed (db.calls + 1) = y at ih ⊢
-      generalize runBody c o (gormBegin o h db).2 body (gormBegin o h db).1 = b at ih hs hf hpool ⊢
+      generalize runBody c o (gormBegin c.beginGuard o h db).2 body (gormBegin c.beginGuard o h db).1 = b at ih hs hf hpool ⊢
       obtain ⟨db2, tx', r2⟩ := b
       obtain ⟨v2, n2, rs2⟩ := y
       obtain ⟨icm, icalls, ires, ⟨new, itx, _⟩, _⟩ := ih
@@ -1463,26 +1524,27 @@ theorem runChild_simTop (c : Cfg) (o : Oracle) : ∀ (p : Prog) (h : Handle) (db
       rw [if_pos (by rw [berr]; simp)]
       simp only [if_true]
       exact ⟨by rw [btx]; exact hd, bcm, bc, by rw [berr], rfl⟩
-  | .man body fin m, h, db, hp, he, hd, _, hn, hne, hs, hf => by
+  | .man body fin m, h, db, hp, he, hd, _, hn, hne, hnf, hs, hf => by
     have hnb : noRbs body = true := by simpa [noRb] using hn
     have hneb : noEndBody body = true := by rw [noEndChild_man] at hne; exact hne
+    have hnfb : noFailBody body = true := by rw [noFailChild_man] at hnf; exact hnf
     rw [runChild_man_eq c o h body fin m db, markStale_clean h db he] at hs hf ⊢
     rw [specChild_man_root o (envOf c h) body fin m db.committed db.calls hp]
-    obtain ⟨bc, bcm, bT, bF⟩ := gormBegin_top c o h db hp he
+    obtain ⟨bc, bcm, bT, bF⟩ := gormBegin_top c c.beginGuard o h db hp he
     cases ho : o db.calls
     · obtain ⟨btx, berr, bpool, benv⟩ := bF ho
-      have hne : ¬ ((gormBegin o h db).2.err ≠ []) := by rw [berr]; simp
+      have hne : ¬ ((gormBegin c.beginGuard o h db).2.err ≠ []) := by rw [berr]; simp
       rw [if_neg hne] at hs hf ⊢
       simp only [Bool.false_eq_true, if_false]
-      have mfin := finishMan_mono o h fin (runBody c o (gormBegin o h db).2 body (gormBegin o h db).1)
-      have ih := runBody_simTx c o body (gormBegin o h db).2 (gormBegin o h db).1 _ bpool berr btx hnb hneb
+      have mfin := finishMan_mono o h fin (runBody c o (gormBegin c.beginGuard o h db).2 body (gormBegin c.beginGuard o h db).1)
+      have ih := runBody_simTx c o body (gormBegin c.beginGuard o h db).2 (gormBegin c.beginGuard o h db).1 _ bpool berr btx hnb hneb hnfb
         (stale_false_of_mono mfin hs) (rbFault_false_of_mono mfin hf)
-      have hpool := (runBody_frame c o body (gormBegin o h db).2 (gormBegin o h db).1
+      have hpool := (runBody_frame c o body (gormBegin c.beginGuard o h db).2 (gormBegin c.beginGuard o h db).1
         (by rw [bpool]; exact wfBody_true body)).1
       rw [benv, bc] at ih
       dsimp only at ih
       generalize specBody o (envOf c h).begin body db.committed (db.calls + 1) = y at ih ⊢
-      generalize runBody c o (gormBegin o h db).2 body (gormBegin o h db).1 = b at ih hs hf hpool ⊢
+      generalize runBody c o (gormBegin c.beginGuard o h db).2 body (gormBegin c.beginGuard o h db).1 = b at ih hs hf hpool ⊢
       obtain ⟨db2, tx', r2⟩ := b
       obtain ⟨v2, n2, rs2⟩ := y
       obtain ⟨icm, icalls, ires, ⟨new, itx, _⟩, _⟩ := ih
@@ -1497,15 +1559,16 @@ theorem runChild_simTop (c : Cfg) (o : Oracle) : ∀ (p : Prog) (h : Handle) (db
       exact ⟨by rw [btx]; exact hd, bcm, bc, by rw [berr], rfl⟩
 theorem runBody_simTop (c : Cfg) (o : Oracle) : ∀ (ps : List Prog) (h : Handle) (db : DB),
     h.pool.isCommitter = false → h.err = [] → db.tx = none → wfBody false ps = true → noRbs ps = true →
-    noEndBody ps = true →
+    noEndBody ps = true → noFailBody ps = true →
     (runBody c o h ps db).1.stale = false → (runBody c o h ps db).1.rbFault = false →
     SimTop h (runBody c o h ps db) (specBody o (envOf c h) ps db.committed db.calls)
-  | [], h, db, _, _, hd, _, _, _, _, _ => by
+  | [], h, db, _, _, hd, _, _, _, _, _, _ => by
     unfold runBody specBody
     exact ⟨hd, rfl, rfl, rfl, rfl⟩
-  | p :: ps, h, db, hp, he, hd, hwf, hn, hne, hs, hf => by
+  | p :: ps, h, db, hp, he, hd, hwf, hn, hne, hnf, hs, hf => by
     have hnn : noRb p = true ∧ noRbs ps = true := by simpa [noRbs] using hn
     have hee : noEndChild p = true ∧ noEndBody ps = true := by simpa [noEndBody_cons] using hne
+    have hff : noFailChild p = true ∧ noFailBody ps = true := by simpa [noFailBody_cons] using hnf
     have hww : wfChild false p = true ∧ wfBody false ps = true := by simpa [wfBody] using hwf
     have m2 := runBody_mono c o ps (runChild c o h p db).2.1 (runChild c o h p db).1
     rw [runBody_cons] at hs hf ⊢
@@ -1518,7 +1581,7 @@ theorem runBody_simTop (c : Cfg) (o : Oracle) : ∀ (ps : List Prog) (h : Handle
       split at hf
       · exact hf
       · exact rbFault_false_of_mono m2 hf
-    have ih1 := runChild_simTop c o p h db hp he hd hww.1 hnn.1 hee.1 hs1 hf1
+    have ih1 := runChild_simTop c o p h db hp he hd hww.1 hnn.1 hee.1 hff.1 hs1 hf1
     generalize specChild o (envOf c h) p db.committed db.calls = y at ih1 ⊢
     generalize runChild c o h p db = x at ih1 hs hf ⊢
     obtain ⟨db1, h1, r1⟩ := x
@@ -1531,7 +1594,7 @@ theorem runBody_simTop (c : Cfg) (o : Oracle) : ∀ (ps : List Prog) (h : Handle
       exact ⟨itx, icm, icalls, rfl, rfl⟩
     · rw [if_neg hstop] at hs hf ⊢
       rw [if_neg hstop]
-      have ih2 := runBody_simTop c o ps h1 db1 hp he itx hww.2 hnn.2 hee.2 hs hf
+      have ih2 := runBody_simTop c o ps h1 db1 hp he itx hww.2 hnn.2 hee.2 hff.2 hs hf
       rw [icm, icalls] at ih2
       exact ih2
 end
@@ -1541,7 +1604,8 @@ end
     was injected into a ROLLBACK TO, then the committed store and the result are exactly those of the functional reference
     (started at the same committed store and call counter); no transaction is left open. -/
 theorem run_refines_gen (c : Cfg) (o : Oracle) (ps : List Prog) (db : DB)
-    (hwf : wfBody false ps = true) (hn : noRbs ps = true) (hne : noEndBody ps = true) (hd : db.tx = none)
+    (hwf : wfBody false ps = true) (hn : noRbs ps = true) (hne : noEndBody ps = true) (hnf : noFailBody ps = true)
+    (hd : db.tx = none)
     (hs : (run c o ps db).1.stale = false) (hf : (run c o ps db).1.rbFault = false) :
     (run c o ps db).1.tx = none ∧
     (run c o ps db).1.committed = (specBody o { inTx := false, skip := c.skip, dis := c.dis } ps db.committed db.calls).1 ∧
@@ -1552,15 +1616,16 @@ theorem run_refines_gen (c : Cfg) (o : Oracle) (ps : List Prog) (db : DB)
   have henv : envOf c c.root = { inTx := false, skip := c.skip, dis := c.dis } := by
     unfold envOf; rw [hroot]; simp [Cfg.root]
   unfold run at hs hf ⊢
-  have sim := runBody_simTop c o ps c.root db hroot rfl hd hwf hn hne hs hf
+  have sim := runBody_simTop c o ps c.root db hroot rfl hd hwf hn hne hnf hs hf
   rw [henv] at sim
   exact ⟨sim.1, sim.2.1, sim.2.2.1, sim.2.2.2.1⟩
 
 theorem run_refines (c : Cfg) (o : Oracle) (ps : List Prog) (db : DB)
-    (hwf : wfBody false ps = true) (hn : noRbs ps = true) (hne : noEndBody ps = true) (hd : db.tx = none) (hc : db.calls = 0)
+    (hwf : wfBody false ps = true) (hn : noRbs ps = true) (hne : noEndBody ps = true) (hnf : noFailBody ps = true)
+    (hd : db.tx = none) (hc : db.calls = 0)
     (hs : (run c o ps db).1.stale = false) (hf : (run c o ps db).1.rbFault = false) :
     (run c o ps db).1.committed = (spec c o ps db.committed).1 ∧ (run c o ps db).2 = (spec c o ps db.committed).2 := by
-  have h := run_refines_gen c o ps db hwf hn hne hd hs hf
+  have h := run_refines_gen c o ps db hwf hn hne hnf hd hs hf
   rw [hc] at h
   unfold spec
   exact ⟨h.2.1, h.2.2.2⟩
